@@ -127,7 +127,7 @@ T = [
 ("R6-C44",2,"dbms/query","TestDemoR6C44_2","child trigger throws during a cascade, caller catches and completes","missed","C44.4 (new): cascades run under recover→Abort→re-panic"),
 ]
 conf = {}
-for log in ("/tmp/seed/confirm.log", "/tmp/seed/confirm2.log", "/tmp/seed/confirm3.log", "/tmp/seed/confirm4.log", "/tmp/seed/confirm4a.log", "/tmp/seed/confirm4b.log", "/tmp/seed/confirm5.log", "/tmp/seed/confirm6.log", "/tmp/seed/confirm7a.log", "/tmp/seed/confirm7b.log", "/tmp/seed/confirm7c.log"):
+for log in ("/tmp/seed/confirm.log", "/tmp/seed/confirm2.log", "/tmp/seed/confirm3.log", "/tmp/seed/confirm4.log", "/tmp/seed/confirm4a.log", "/tmp/seed/confirm4b.log", "/tmp/seed/confirm5.log", "/tmp/seed/confirm6.log", "/tmp/seed/confirm7a.log", "/tmp/seed/confirm7b.log", "/tmp/seed/confirm7c.log", "/tmp/seed/confirm8.log", "/tmp/seed/confirm9a.log", "/tmp/seed/confirm9b.log"):
     if not os.path.exists(log): continue
     cur = None
     for l in open(log):
@@ -142,6 +142,22 @@ for (pid, k, pkg, run, needs, first, by) in T:
     c = conf.get((pid, k))
     if not os.path.isdir(src) or not c:
         print("skip (not confirmed yet)", pid, k); continue
+    what = "tools/confirm_seed.sh in a scratch worktree of /repo HEAD: demo without the change, git apply, go build, demo with the change, stable baseline (829 tests) with the change"
+    if c["baseline"] == "skipped":
+        # time ran out for a third full baseline run per seed: the agent's own baseline log is the evidence
+        agent = ""
+        for bf in ("baseline.log", "baseline.txt"):
+            bp = os.path.join(src, bf)
+            if os.path.exists(bp) and "stable tests not passing: 0" in open(bp, errors="replace").read():
+                agent = bf
+        if not agent:
+            print("NOT CONFIRMED (no baseline evidence)", pid, k); continue
+        c = dict(c); c["baseline"] = "not re-run by me; the seeding agent's run (" + agent + " in this directory) shows 'stable tests not passing: 0'"
+        what = "tools/confirm_seed.sh … nobaseline in a scratch worktree of /repo HEAD: demo without the change, git apply, go build, demo with the change"
+        for bf in ("baseline.log", "baseline.txt"):
+            if os.path.exists(os.path.join(src, bf)):
+                os.makedirs(f"/verif/seeded/{pid}-{k}", exist_ok=True)
+                shutil.copy(os.path.join(src, bf), f"/verif/seeded/{pid}-{k}/agent_{bf}")
     ok = c["demo_without_change_exit"] == 0 and c["patch_applies"] == 0 and c["build_exit"] == 0 and c["demo_with_change_exit"] != 0 and "not passing: 0" in c["baseline"]
     if not ok:
         print("NOT CONFIRMED", pid, k, c); continue
@@ -154,7 +170,7 @@ for (pid, k, pkg, run, needs, first, by) in T:
         "origin": "written by an independent sub-agent that was given only the property text and a scratch worktree",
         "needs_to_manifest": needs,
         "demo": {"package_dir": pkg, "command": f"go test -vet=off -count=1 -run '{run}' ./{pkg}/", "file": "demo_test.go.txt (copy into the package directory as *_test.go; packages core/builtin/dbms also need empty dbms/server.crt and dbms/server.key)"},
-        "confirmed_by_me": {"what_i_ran": "tools/confirm_seed.sh in a scratch worktree of /repo HEAD: demo without the change, git apply, go build, demo with the change, stable baseline (829 tests) with the change", **c},
+        "confirmed_by_me": {"what_i_ran": what, **c},
         "verdict_of_the_checks_when_first_run": first,
         "caught_by": by,
         "how_to_rerun_the_checks": f"tools/seedrun.sh seeded/{pid}-{k}/patch.diff {pid.split('-')[-1]}   (also kept as a seed-*.mut under gsv/mutants/{pid.split('-')[-1]}/)",
